@@ -256,4 +256,8 @@ def model_key(ex) -> str:
 
 
 def outcome(ex, obs) -> str:
-    return core.digest([ex.results, sorted(obs["reopen"]["tree"]), len(obs["bytes"]) // 512])
+    if obs.get("reopen") is not None:
+        seen = sorted(obs["reopen"]["tree"])
+    else:
+        seen = sorted(str(u) for i, u in ex.uid.items() if i in ex.model.nodes)
+    return core.digest([ex.results, seen, len(obs["bytes"]) // 512])
